@@ -509,6 +509,16 @@ static SpatialVec velInA(const Transform& X_GA, const SpatialVec& V_GA, const Tr
     return SpatialVec(w, v);
 }
 
+// System::project() as a legal client would use it: a nonlinear constraint may need more than one call
+// ("you might need a better starting configuration"); up to 4 calls, each starting from the last result.
+static bool projectWithRetries(const MultibodySystem& sys, State& s, double acc, std::string& msg, bool velocityOnly = false) {
+    for (int attempt = 0; attempt < 4; ++attempt) {
+        try { if (velocityOnly) sys.projectU(s, acc); else sys.project(s, acc); return true; }
+        catch (const std::exception& e) { msg = e.what(); if (!allFinite(s.getQ()) || !allFinite(s.getU())) return false; }
+    }
+    return false;
+}
+
 // ====================================================================================== C07
 struct C07Case {
     Model m; State s; BuiltCon bc;
@@ -608,8 +618,8 @@ static void runC07Regime(Ctx& c, long idx, const ModelDesc& d, const ConSpec& cs
       c.require("shape:equation-counts:" + Tn, mp == emp && mv == emv && ma == ema, [&] { return Json::obj().set("type", T).set("mp", mp).set("mv", mv).set("ma", ma); }); }
     if (onManifold) {
         c.setPhase("C07 project " + T);
-        try { sys.project(s, 1e-11); }
-        catch (const std::exception& e) { c.obs("project-threw:" + Tn); if (c.args.verbose) fprintf(stderr, "project threw: %s\n", e.what()); c.skip("project-failed"); return; }
+        std::string msg;
+        if (!projectWithRetries(sys, s, 1e-11, msg)) { c.obs("project-threw:" + Tn); if (c.args.verbose) fprintf(stderr, "project threw: %s\n", msg.c_str()); c.skip("project-failed"); return; }
         sys.realize(s, Stage::Velocity);
         if (!allFinite(s.getQ()) || !allFinite(s.getU())) { c.obs("project-left-nonfinite-state:" + Tn); c.skip("project-nonfinite"); return; }
         double qe = mp ? vmaxabs(s.getQErr()(0, mp)) : 0.0, ue = (mp + mv) ? vmaxabs(s.getUErr()) : 0.0;
@@ -843,6 +853,291 @@ static void checkC07(Ctx& c, long idx, Rng& r, int forceType) {
     runC07Regime(c, idx, d, cs, ref, qseed, true, attach, r2);
 }
 
+// ====================================================================================== C08
+struct Scenario {
+    ModelDesc d; std::vector<ConSpec> cons; bool gravity = false; Vec3 g = Vec3(0);
+    uint64_t fseed = 0, qseed = 0; double t0 = 0; int redClass = 0; bool workless = false;
+};
+struct Built08 {
+    Model m; State s; std::vector<BuiltCon> bc;   // bc[i] <-> the i-th constraint actually added
+    std::vector<int> specIx;                       // index into Scenario::cons
+    std::unique_ptr<Force::DiscreteForces> disc;
+    bool realized = false; std::string err;
+};
+// mode 0: every constraint added (disabled ones present but disabled); 1: disabled ones left out;
+// 2: as 0 but the disabled constraints get different parameters.
+static bool buildScenario(Built08& b, const Scenario& sc, const RefKin& ref, int mode, std::string& why) {
+    b.m.build(sc.d);
+    b.disc.reset(new Force::DiscreteForces(b.m.forces, b.m.matter));
+    if (sc.gravity) Force::UniformGravity(b.m.forces, b.m.matter, sc.g);
+    for (size_t i = 0; i < sc.cons.size(); ++i) {
+        ConSpec cs = sc.cons[i];
+        if (cs.disabled && mode == 1) continue;
+        if (cs.disabled && mode == 2) { cs.sub = mix(cs.sub, 77); cs.tuned = false; }
+        BuiltCon bc;
+        if (!addConstraint(b.m, cs, ref, bc, why)) return false;
+        b.bc.push_back(bc); b.specIx.push_back((int)i);
+    }
+    b.s = b.m.init();
+    b.s.updQ() = ref.q; b.s.updU() = ref.u; b.s.setTime(ref.t);
+    for (auto& bc : b.bc) if (bc.spec.disabled && !bc.spec.disabledByDefault) bc.c.disable(b.s);
+    b.m.sys.realize(b.s, Stage::Instance);
+    Rng rf(sc.fseed);
+    int nu = b.s.getNU(), nb = b.m.matter.getNumBodies();
+    b.disc->setAllMobilityForces(b.s, randVector(rf, nu, 3));
+    b.disc->setAllBodyForces(b.s, randBodyForces(rf, nb, 3));
+    return true;
+}
+
+static void checkC08(Ctx& c, long idx, Rng& r) {
+    c.setPhase("C08 generate");
+    Scenario sc; sc.redClass = (int)(idx % 3); sc.workless = ((idx / 3) % 2) == 0;
+    GenOpts o; o.minBodies = 2; o.maxBodies = 6; o.forceCycle = false; o.pLoneParticle = 0.0;
+    o.types = {MT_Free, MT_Free, MT_Ball, MT_Ball, MT_Gimbal, MT_Bushing, MT_Pin, MT_Slider, MT_Universal, MT_Cylinder, MT_Planar, MT_Translation, MT_Screw,
+               MT_BendStretch, MT_Ellipsoid, MT_LineOrientation, MT_FreeLine, MT_SphericalCoords, MT_CantileverFreeBeam, MT_Free, MT_Bushing, MT_Weld};
+    sc.d = randomDesc(r, o, idx);
+    sc.qseed = r.next(); sc.fseed = r.next(); sc.t0 = r.uni(0, 2); sc.gravity = r.coin(); sc.g = randVec3(r, 9.8);
+    RefKin ref;
+    if (!makeRef(c, sc.d, sc.qseed, sc.t0, 1.0, ref)) return;
+    const int n = (int)sc.d.nodes.size();
+    int nuTot = 0; for (int x : ref.nu) nuTot += x;
+    if (nuTot < 2) { c.skip("too-few-mobilities"); return; }
+    const int nWant = 1 + (int)((idx / 6) % 6);
+    int mTot = 0;
+    auto allowedType = [&](int t) { return !sc.workless || (t != CT_PrescribedMotion && t != CT_ConstantAcceleration); };
+    auto tryAdd = [&](int type, bool tuned, int variant) -> bool {
+        ConSpec cs; cs.type = type; cs.sub = r.next(); cs.tuned = tuned; cs.workless = sc.workless;
+        if (ctBodyBased(type)) {
+            std::vector<std::array<int, 2>> pool; for (int a = -1; a < n; ++a) for (int b = -1; b < n; ++b) if (a != b) pool.push_back({a, b});
+            auto pr = pool[r.next() % pool.size()]; cs.b[0] = pr[0]; cs.b[1] = pr[1];
+            if (type == CT_NoSlip1D) { int sel = variant % 3; cs.b[2] = sel == 0 ? -1 : sel == 1 ? cs.b[0] : (int)(r.next() % n); }
+        } else if (!pickMobilizers(sc.d, ref, type, variant, r, cs)) return false;
+        int mp, mv, ma; ctEqs(type, mp, mv, ma); int me = mp + mv + ma;
+        if (pathDofs(sc.d, ref, specNodes(cs), ctBodyBased(type)) < me) return false;   // more equations than dofs on the path: over-constrained placement
+        if (mTot + me > nuTot - 1) return false;
+        sc.cons.push_back(cs); mTot += me; return true;
+    };
+    // redundancy by construction
+    int protectedFrom = -1;   // constraints from this index on must stay enabled
+    if (sc.redClass == 2) {
+        // a loop closed twice on an assembled configuration: a Weld plus a constraint the Weld implies
+        bool ok = false;
+        for (int att = 0; att < 20 && !ok; ++att) {
+            ConSpec w; w.type = CT_Weld; w.sub = r.next(); w.tuned = true; w.workless = sc.workless;
+            int a = r.integer(-1, n - 1), b = r.integer(-1, n - 1); if (a == b) continue;
+            w.b[0] = a; w.b[1] = b;
+            if (pathDofs(sc.d, ref, {a, b}, true) < 6 || 6 + 3 > nuTot - 1) continue;
+            static const int extras[] = {CT_Ball, CT_ConstantOrientation, CT_Weld, CT_PointOnLine, CT_PointInPlane, CT_Rod, CT_ConstantAngle, CT_CustomRod, CT_PointOnPlaneContact, CT_SphereOnPlaneContact, CT_SphereOnSphereContact};
+            ConSpec e; e.type = extras[(idx / 3 + att) % 11]; e.sub = r.next(); e.tuned = true; e.workless = sc.workless; e.b[0] = r.coin() ? a : b; e.b[1] = e.b[0] == a ? b : a;
+            int mp, mv, ma; ctEqs(e.type, mp, mv, ma);
+            if (6 + mp + mv > nuTot - 1) continue;
+            sc.cons.push_back(w); sc.cons.push_back(e); mTot += 6 + mp + mv; ok = true;
+        }
+        if (!ok) sc.redClass = 0; else protectedFrom = 0;
+    }
+    int guardIter = 0;
+    const size_t nBase = sc.cons.size();
+    while ((int)(sc.cons.size() - nBase) < nWant - (sc.redClass == 2 ? 1 : 0) && guardIter++ < 40) {
+        int type = (guardIter == 1) ? (int)((idx / 3) % CT_Count) : r.integer(0, CT_Count - 1);
+        if (!allowedType(type)) continue;
+        tryAdd(type, sc.redClass == 2 ? true : r.coin(), (int)(idx / 3 + guardIter));
+    }
+    if (sc.cons.empty()) { c.skip("no-constraint-placeable"); return; }
+    // enable mask
+    for (size_t i = (protectedFrom == 0 ? 2 : 0); i < sc.cons.size(); ++i) if (r.coin(0.25)) { sc.cons[i].disabled = true; sc.cons[i].disabledByDefault = r.coin(); }
+    { bool any = false; for (auto& x : sc.cons) any = any || !x.disabled; if (!any) { sc.cons[0].disabled = false; sc.cons[0].disabledByDefault = false; } }
+    if (sc.redClass == 1) {   // duplicate one enabled constraint exactly
+        std::vector<int> en; for (size_t i = 0; i < sc.cons.size(); ++i) if (!sc.cons[i].disabled) en.push_back((int)i);
+        ConSpec dup = sc.cons[en[r.next() % en.size()]];
+        int mp, mv, ma; ctEqs(dup.type, mp, mv, ma);
+        if (mTot + mp + mv + ma > nuTot) sc.redClass = 0; else sc.cons.push_back(dup);
+    }
+    Json wit = Json::obj().set("model", sc.d.toJson()).set("redundancy", sc.redClass == 0 ? "none" : sc.redClass == 1 ? "duplicated" : "loop").set("gravity", sc.gravity).set("workless", sc.workless);
+    { Json cj = Json::arr(); for (auto& x : sc.cons) cj.push(x.toJson()); wit.set("constraints", cj); }
+    auto W = [&](const char* what) { return [=]() { Json j = wit; j.set("what", what); return j; }; };
+    if (c.args.verbose) fprintf(stderr, "C08 case %ld: %s\n", idx, wit.dump().c_str());
+
+    // ---------------------------------------------------------------- model A
+    c.setPhase("C08 build A");
+    Built08 A; std::string why;
+    if (!buildScenario(A, sc, ref, 0, why)) { c.skip(why); return; }
+    const SimbodyMatterSubsystem& matter = A.m.matter; const MultibodySystem& sys = A.m.sys; State& s = A.s;
+    const int nu = s.getNU(), nb = matter.getNumBodies();
+    if (sc.redClass == 2) {
+        c.setPhase("C08 project (loop class)");
+        std::string msg;
+        if (!projectWithRetries(sys, s, 1e-11, msg)) { c.obs("project-threw"); c.skip("project-failed"); return; }
+        sys.realize(s, Stage::Velocity);
+        int mpA = s.getNQErr() - matter.getNumQuaternionsInUse(s);
+        if ((mpA ? vmaxabs(s.getQErr()(0, mpA)) : 0.0) > 1e-9 || (s.getNUErr() ? vmaxabs(s.getUErr()) : 0.0) > 1e-9) { c.skip("not-on-manifold-after-project"); return; }
+        if (!sphericalOK(A.m, s)) { c.skip("spherical-singularity"); return; }
+        ref.q = s.getQ(); ref.u = s.getU();   // the differential partners are built at the projected state
+    }
+    c.setPhase("C08 realize A");
+    sys.realize(s, Stage::Acceleration);
+    const int mp = s.getNQErr() - matter.getNumQuaternionsInUse(s), mpv = s.getNUErr(), m = s.getNUDotErr();
+    const Vector udot = s.getUDot(), lam = s.getMultipliers(), udoterr = s.getUDotErr();
+    c.require("finite:acceleration-results", allFinite(udot) && allFinite(lam) && allFinite(udoterr), W("udot / multipliers / udoterr has NaN/Inf"));
+    c.require("shape:multipliers", lam.size() == m && matter.getConstraintMultipliers(s).size() == m, W("number of multipliers != number of acceleration-level equations"));
+    if (!allFinite(udot) || !allFinite(lam)) return;
+    { int em = 0; for (auto& bc : A.bc) { int a, b2, c2; bc.c.getNumConstraintEquationsInUse(s, a, b2, c2); int ea, eb, ec; ctEqs(bc.spec.type, ea, eb, ec);
+        bool dis = bc.spec.disabled; c.require("disabled:isDisabled-and-no-equations", bc.c.isDisabled(s) == dis && (dis ? a + b2 + c2 == 0 : (a == ea && b2 == eb && c2 == ec)), W("isDisabled()/equation counts do not reflect the enable mask")); em += a + b2 + c2; }
+      c.require("shape:total-equations", em == m, W("sum of per-constraint equation counts != NUDotErr")); }
+    if (m == 0) { c.skip("no-enabled-equations"); return; }
+
+    // ---------------------------------------------------------------- consistency guard
+    c.setPhase("C08 guard");
+    Matrix M, MInv, G; matter.calcM(s, M);
+    double condM = condEstimateM(M);
+    if (!(condM <= 1e7)) { c.skip("ill-conditioned-M"); return; }
+    matter.calcMInv(s, MInv); matter.calcG(s, G);
+    Matrix Wm = G * MInv * ~G;
+    for (int i = 0; i < m; ++i) for (int j = 0; j < i; ++j) { double a = 0.5 * (Wm(i, j) + Wm(j, i)); Wm(i, j) = Wm(j, i) = a; }
+    std::vector<double> ev; Matrix EV; jacobiEig(Wm, ev, EV);
+    double lmax = 0; for (double x : ev) lmax = std::max(lmax, x);
+    if (!(lmax > 0)) { c.skip("zero-constraint-matrix"); return; }
+    int rank = 0, ambiguous = 0; double lminBig = lmax;
+    for (double x : ev) { if (x > 1e-7 * lmax) { ++rank; lminBig = std::min(lminBig, x); } else if (x > 1e-13 * m * lmax) ++ambiguous; }
+    if (ambiguous) { c.skip("ill-conditioned-W"); return; }
+    const double condEff = lmax / lminBig;
+    const Vector& fApp = sys.getMobilityForces(s, Stage::Dynamics); const Vector_<SpatialVec>& FApp = sys.getRigidBodyForces(s, Stage::Dynamics);
+    Vector udot0; Vector_<SpatialVec> A0; matter.calcAccelerationIgnoringConstraints(s, fApp, FApp, udot0, A0);
+    Vector aerr0; matter.calcConstraintAccelerationErrors(s, udot0, aerr0);
+    const double scaleU = std::max(1.0, std::max(vmaxabs(aerr0), rowSumMax(G) * std::max(vmaxabs(udot), vmaxabs(udot0))));
+    bool redundant = rank < m;
+    if (redundant) {
+        double inc = 0; for (int k2 = 0; k2 < m; ++k2) if (!(ev[k2] > 1e-7 * lmax)) { double d = 0; for (int i = 0; i < m; ++i) d += EV(i, k2) * aerr0[i]; inc = std::max(inc, std::fabs(d)); }
+        if (inc > 1e-7 * scaleU) {
+            if (c.args.verbose) fprintf(stderr, "inconsistent: inc=%g scaleU=%g rank=%d m=%d\n", inc, scaleU, rank, m);
+            // (in the duplicated/loop classes this is an accidental deficiency of one of the members, e.g. a
+            // rolling contact across a ball joint: the duplicate or implied constraint itself is always consistent)
+            c.obs(std::string("rank-deficient-inconsistent:class=") + (sc.redClass == 0 ? "none" : sc.redClass == 1 ? "duplicated" : "loop"));
+            c.skip("rank-deficient-inconsistent");
+            return;
+        }
+        c.obs(sc.redClass == 0 ? "rank-deficient-consistent(accidental)" : "rank-deficient-consistent(by-construction)");
+    }
+    const double tolU = (E1 + 1e-13 * condEff) * scaleU;
+
+    // ---------------------------------------------------------------- acceleration constraints satisfied
+    c.setPhase("C08 oracles");
+    auto WU = [&](const char* what) { return [=]() { Json j = wit; j.set("what", what).set("udoterr", jV(udoterr)).set("condEff", condEff).set("rank", rank).set("m", m); return j; }; };
+    c.check("udoterr:forward-dynamics", vmaxabs(udoterr), tolU, WU("acceleration-level constraint errors not zero after realize(Acceleration)"));
+    { Vector ae; matter.calcConstraintAccelerationErrors(s, udot, ae); c.check("udoterr:state-vs-operator", vdiff(ae, udoterr), tolU, W("getUDotErr != calcConstraintAccelerationErrors(getUDot)")); }
+    { Vector ud2; Vector_<SpatialVec> A2; matter.calcAcceleration(s, fApp, FApp, ud2, A2);
+      c.check("udot:calcAcceleration-vs-realize", vdiff(ud2, udot), (E1 + 1e-13 * condEff + 1e-13 * condM) * (vmaxabs(udot) + 1), W("calcAcceleration operator != realize(Acceleration)"));
+      double e = 0, sc2 = 1; for (int b = 0; b < nb; ++b) { e = std::max(e, spMax(A2[b] - matter.getMobilizedBody(MobilizedBodyIndex(b)).getBodyAcceleration(s))); sc2 = std::max(sc2, spMax(A2[b])); }
+      c.check("udot:calcAcceleration-A_GB", e, (E1 + 1e-13 * condEff + 1e-13 * condM) * sc2, W("calcAcceleration body accelerations != State's")); }
+    // ---------------------------------------------------------------- Newton's law with the reported multipliers
+    Vector Gtl; matter.multiplyByGTranspose(s, lam, Gtl);
+    {
+        Vector res, resI, JtF, Mud; matter.calcResidualForce(s, fApp, FApp, udot, lam, res);
+        matter.calcResidualForceIgnoringConstraints(s, fApp, FApp, udot, resI);
+        matter.multiplyBySystemJacobianTranspose(s, FApp, JtF); matter.multiplyByM(s, udot, Mud);
+        Vector C0; matter.calcResidualForceIgnoringConstraints(s, Vector(nu, 0.0), Vector_<SpatialVec>(), Vector(nu, 0.0), C0);
+        double scaleR = vmaxabs(Mud) + vmaxabs(fApp) + vmaxabs(JtF) + vmaxabs(Gtl) + vmaxabs(C0) + 1;
+        double tolR = (1e-12 * condM * nu + E1) * scaleR;
+        c.check("newton:calcResidualForce(udot,lambda)=0", vmaxabs(res), tolR, [&] { Json j = wit; j.set("what", "M udot + G^T lambda + f_inertial - f_applied != 0 with the reported multipliers").set("residual", jV(res)).set("lambda", jV(lam)); return j; });
+        c.check("newton:residual-routes", vdiff(res, Vector(resI + Gtl)), E1 * scaleR, W("calcResidualForce != calcResidualForceIgnoringConstraints + G^T lambda"));
+    }
+    // ---------------------------------------------------------------- slices
+    c.check("multipliers:getConstraintMultipliers", vdiff(matter.getConstraintMultipliers(s), lam), 0.0, W("getConstraintMultipliers != State::getMultipliers"));
+    Vector_<SpatialVec> FG; Vector fm; matter.findConstraintForces(s, FG, fm);
+    {
+        Vector_<SpatialVec> FG2; Vector fm2; matter.calcConstraintForcesFromMultipliers(s, lam, FG2, fm2);
+        double e = vdiff(fm, fm2), fsc = vmaxabs(fm) + 1e-3; for (int b = 0; b < nb; ++b) { e = std::max(e, spMax(FG[b] - FG2[b])); fsc = std::max(fsc, spMax(FG[b])); }
+        c.check("forces:findConstraintForces-vs-fromMultipliers", e, E1 * fsc, W("findConstraintForces != calcConstraintForcesFromMultipliers(getMultipliers)"));
+        Vector JtF; matter.multiplyBySystemJacobianTranspose(s, FG, JtF);
+        c.check("forces:J^T*F+f=G^T*lambda", vdiff(Vector(JtF + fm), Gtl), E1 * (vmaxabs(Gtl) + vmaxabs(JtF) + vmaxabs(fm) + 1e-3) * 10, W("constraint forces in the State are not G^T lambda"));
+        Vector_<SpatialVec> Fsum(nb, SpatialVec(Vec3(0), Vec3(0))); Vector fsum(nu, 0.0); double psum = 0;
+        int sliceBad = 0; double sliceErr = 0, aerrSlice = 0;
+        for (auto& bc : A.bc) {
+            if (bc.spec.disabled) continue;
+            int a, b2, c2; bc.c.getNumConstraintEquationsInUse(s, a, b2, c2);
+            MultiplierIndex px, vx, ax; bc.c.getIndexOfMultipliersInUse(s, px, vx, ax);
+            Vector mine = bc.c.getMultipliersAsVector(s), mine2, ae = bc.c.getAccelerationErrorsAsVector(s);
+            bc.c.getMyPartFromConstraintSpaceVector(s, lam, mine2);
+            if (mine.size() != a + b2 + c2 || mine2.size() != a + b2 + c2 || ae.size() != a + b2 + c2) { ++sliceBad; continue; }
+            for (int i = 0; i < a; ++i) { sliceErr = std::max(sliceErr, std::max(std::fabs(mine[i] - lam[px + i]), std::fabs(mine2[i] - lam[px + i]))); aerrSlice = std::max(aerrSlice, std::fabs(ae[i] - udoterr[px + i])); }
+            for (int i = 0; i < b2; ++i) { sliceErr = std::max(sliceErr, std::max(std::fabs(mine[a + i] - lam[vx + i]), std::fabs(mine2[a + i] - lam[vx + i]))); aerrSlice = std::max(aerrSlice, std::fabs(ae[a + i] - udoterr[vx + i])); }
+            for (int i = 0; i < c2; ++i) { sliceErr = std::max(sliceErr, std::max(std::fabs(mine[a + b2 + i] - lam[ax + i]), std::fabs(mine2[a + b2 + i] - lam[ax + i]))); aerrSlice = std::max(aerrSlice, std::fabs(ae[a + b2 + i] - udoterr[ax + i])); }
+            Vector_<SpatialVec> Fc; Vector fc; bc.c.getConstraintForcesAsVectors(s, Fc, fc);
+            int ncb = bc.c.getNumConstrainedBodies(), ncu = bc.c.getNumConstrainedU(s);
+            if (Fc.size() != ncb || fc.size() != ncu) { ++sliceBad; continue; }
+            for (int i = 0; i < ncb; ++i) Fsum[bc.c.getMobilizedBodyFromConstrainedBody(ConstrainedBodyIndex(i)).getMobilizedBodyIndex()] += Fc[i];
+            for (int i = 0; i < ncu; ++i) fsum[bc.c.getUIndexOfConstrainedU(s, ConstrainedUIndex(i))] += fc[i];
+            psum += bc.c.calcPower(s);
+        }
+        c.require("multipliers:slice-shapes", sliceBad == 0, W("per-constraint multiplier/force vectors have the wrong length"));
+        c.check("multipliers:per-constraint-slices", sliceErr, 0.0, W("Constraint::getMultipliersAsVector / getMyPartFromConstraintSpaceVector != slice of State multipliers"));
+        c.check("multipliers:per-constraint-udoterr-slices", aerrSlice, 0.0, W("Constraint::getAccelerationErrorsAsVector != slice of State udoterr"));
+        double e2 = vdiff(fsum, fm); for (int b = 0; b < nb; ++b) e2 = std::max(e2, spMax(Fsum[b] - FG[b]));
+        c.check("forces:sum-of-per-constraint-forces", e2, E1 * fsc * 10, W("sum of Constraint::getConstraintForcesAsVectors != findConstraintForces"));
+        // power routes
+        double pw = matter.calcConstraintPower(s), ph = 0, psc = 1e-3;
+        for (int b = 0; b < nb; ++b) { const SpatialVec& V = matter.getMobilizedBody(MobilizedBodyIndex(b)).getBodyVelocity(s); ph -= ~FG[b] * V; psc += 6 * spMax(FG[b]) * spMax(V); }
+        for (int j = 0; j < nu; ++j) { ph -= fm[j] * s.getU()[j]; psc += std::fabs(fm[j] * s.getU()[j]); }
+        c.check("power:routes", std::max(std::fabs(pw - ph), std::fabs(pw - psum)), E1 * psc * 10, [&] { Json j = wit; j.set("what", "calcConstraintPower != -(F.V + f.u) or != sum of Constraint::calcPower").set("calcConstraintPower", pw).set("harness", ph).set("sumCalcPower", psum); return j; });
+    }
+    // ---------------------------------------------------------------- disabled constraints have no effect (differential pairs)
+    bool anyDisabled = false; for (auto& x : sc.cons) anyDisabled = anyDisabled || x.disabled;
+    Vector_<SpatialVec> reactA; matter.calcMobilizerReactionForces(s, reactA);
+    for (int mode = 1; mode <= 2; ++mode) {
+        if (mode == 2 && !anyDisabled) break;
+        c.setPhase(mode == 1 ? "C08 differential pair: disabled constraints removed" : "C08 differential pair: disabled constraints perturbed");
+        Built08 B; std::string why2;
+        if (!buildScenario(B, sc, ref, mode, why2)) { c.skip("pair:" + why2); continue; }
+        B.m.sys.realize(B.s, Stage::Acceleration);
+        const State& t = B.s;
+        const std::string tag = mode == 1 ? "removed" : "perturbed";
+        bool shapes = t.getNQErr() == s.getNQErr() && t.getNUErr() == s.getNUErr() && t.getNUDotErr() == s.getNUDotErr() && t.getMultipliers().size() == lam.size();
+        c.require("disabled:shapes:" + tag, shapes, W("a disabled constraint changes the number of constraint equations"));
+        if (!shapes) continue;
+        double tolD = (E1 + 1e-13 * condEff + 1e-13 * condM);
+        c.check("disabled:qerr-uerr:" + tag, std::max(vdiff(t.getQErr(), s.getQErr()), vdiff(t.getUErr(), s.getUErr())), E1 * (vmaxabs(s.getQErr()) + vmaxabs(s.getUErr()) + 1), W("a disabled constraint changes qerr/uerr of the others"));
+        c.check("disabled:udot:" + tag, vdiff(t.getUDot(), udot), tolD * (vmaxabs(udot) + 1), [&] { Json j = wit; j.set("what", "a disabled constraint changes udot").set("udotA", jV(udot)).set("udotB", jV(t.getUDot())); return j; });
+        c.check("disabled:udoterr:" + tag, vdiff(t.getUDotErr(), udoterr), tolU, W("a disabled constraint changes udoterr"));
+        Vector GtlB; B.m.matter.multiplyByGTranspose(t, t.getMultipliers(), GtlB);
+        c.check("disabled:G^T*lambda:" + tag, vdiff(GtlB, Gtl), tolD * (vmaxabs(Gtl) + 1) * 10, W("a disabled constraint changes the generalized constraint force"));
+        if (!redundant) c.check("disabled:multipliers:" + tag, vdiff(t.getMultipliers(), lam), tolD * (vmaxabs(lam) + 1) * 10, W("a disabled constraint changes the multipliers of the others"));
+        Vector_<SpatialVec> reactB; B.m.matter.calcMobilizerReactionForces(t, reactB);
+        double e = 0, rs = 1; for (int b = 0; b < nb; ++b) { e = std::max(e, spMax(reactB[b] - reactA[b])); rs = std::max(rs, spMax(reactA[b])); }
+        c.check("disabled:reaction-forces:" + tag, e, tolD * rs * 100, W("a disabled constraint changes mobilizer reaction forces"));
+    }
+    // ---------------------------------------------------------------- workless sets: zero power on the velocity manifold
+    bool allWorkless = true; for (auto& x : sc.cons) if (!x.disabled && !specIsWorkless(x)) allWorkless = false;
+    if (allWorkless) {
+        c.setPhase("C08 power on the velocity manifold");
+        State p = s; std::string msg;
+        bool ok = projectWithRetries(sys, p, 1e-12, msg, true);
+        if (!ok) { c.obs("projectU-threw"); c.skip("projectU-failed"); }
+        else {
+            sys.realize(p, Stage::Acceleration);
+            double ue = mpv ? vmaxabs(p.getUErr()) : 0.0;
+            const Vector& lp = p.getMultipliers();
+            if (!allFinite(lp) || !allFinite(p.getUDot())) c.skip("nonfinite-after-projectU");
+            else if (ue > 1e-10 * std::max(1.0, vmaxabs(p.getU()))) c.skip("uerr-not-small-after-projectU");
+            else {
+                Vector_<SpatialVec> F2; Vector f2; matter.findConstraintForces(p, F2, f2);
+                double psc = 1e-3, l1 = 0; for (int i = 0; i < lp.size(); ++i) l1 += std::fabs(lp[i]);
+                for (int b = 0; b < nb; ++b) psc += 6 * spMax(F2[b]) * spMax(matter.getMobilizedBody(MobilizedBodyIndex(b)).getBodyVelocity(p));
+                for (int j = 0; j < nu; ++j) psc += std::fabs(f2[j] * p.getU()[j]);
+                double pw = matter.calcConstraintPower(p);
+                c.obs("power-on-velocity-manifold-judged");
+                c.check("power:workless-set-zero-power", std::fabs(pw), 2 * l1 * ue + E1 * psc * 10, [&] { Json j = wit; j.set("what", "constraint power not zero for a workless set with uerr = 0").set("power", pw).set("uerr", ue).set("lambda1", l1).set("scale", psc); return j; });
+            }
+        }
+    }
+    // ---------------------------------------------------------------- coverage
+    { int ne = 0; for (auto& x : sc.cons) if (!x.disabled) ++ne; c.obs("enabled-constraints=" + std::to_string(ne)); c.obs("equations-total", m); if (anyDisabled) c.obs("cases-with-disabled-constraints"); }
+    std::set<std::string> types; bool h = false, nh = false, ao = false;
+    for (auto& x : sc.cons) if (!x.disabled) { types.insert(ctVariant(x.type)); int a, b2, c2; ctEqs(x.type, a, b2, c2); h = h || a; nh = nh || b2; ao = ao || c2; }
+    std::string key; for (auto& x : types) { if (!key.empty()) key += "+"; key += x; }
+    key += std::string("|") + (sc.redClass == 0 ? (redundant ? "accidental-redundancy" : "none") : sc.redClass == 1 ? "duplicated" : "loop") + "|" + (h ? "h" : "") + (nh ? "n" : "") + (ao ? "a" : "") + (anyDisabled ? "|masked" : "|all-enabled");
+    c.cover(key);
+    if (c.wantSample()) c.sample(Json::obj().set("model", sc.d.shortStr()).set("scenario", wit).set("m", m).set("rank", rank).set("condEff", condEff).set("udoterr_max", vmaxabs(udoterr)));
+}
+
 int main(int argc, char** argv) {
     Args a = parseArgs(argc, argv);
     Ctx c(a);
@@ -850,6 +1145,7 @@ int main(int argc, char** argv) {
     const int forceType = (int)a.getInt("type", -1);
     return runCases(c, [&](long i, Rng& r) {
         if (p == "C07") checkC07(c, i, r, forceType);
+        else if (p == "C08") checkC08(c, i, r);
         else { fprintf(stderr, "mon_constraint: unknown property %s\n", p.c_str()); exit(2); }
     });
 }
